@@ -137,9 +137,12 @@ fn filename_comparator(file1: &PathBuf, file2: &PathBuf) -> Ordering {
     let mut date_str2 = a2[2];
 
     // in case of file name contains pid, skip it, like Sentinel-Admin-metrics.log.pid22568.2018-12-24
+    // (each name on its own: a directory can hold names with and without the pid part)
     if a1[2].starts_with(FILE_PID_PREFIX) {
-        date_str1 = a1[3];
-        date_str2 = a2[3];
+        date_str1 = a1.get(3).copied().unwrap_or("");
+    }
+    if a2[2].starts_with(FILE_PID_PREFIX) {
+        date_str2 = a2.get(3).copied().unwrap_or("");
     }
 
     // compare date first
